@@ -370,6 +370,13 @@ func (a *Allocation) Refresh(lifetime time.Duration) bool {
 	if a.expired {
 		return false
 	}
+	// Closed for another reason (relay socket failure, the server closing):
+	// resetting would re-arm the timer that Close has stopped.
+	select {
+	case <-a.closed:
+		return false
+	default:
+	}
 	a.expiresAt = time.Now().Add(lifetime)
 	if !a.lifetimeTimer.Reset(lifetime) {
 		a.log.Errorf("Failed to reset allocation timer for %v", a.fiveTuple)
@@ -458,7 +465,9 @@ func (a *Allocation) Close() error {
 	}
 	close(a.closed)
 
+	a.lifetimeLock.Lock()
 	a.lifetimeTimer.Stop()
+	a.lifetimeLock.Unlock()
 
 	for tcpConnection := range a.tcpConnections {
 		a.removeTCPConnection(tcpConnection)
